@@ -2,6 +2,7 @@ package props
 
 import (
 	"fmt"
+	"path/filepath"
 	"sync"
 	"sync/atomic"
 	"unsafe"
@@ -86,11 +87,83 @@ func c06Directed(c *rt.C, point int, mem string) {
 	c.Sample(witness)
 }
 
+// c06Restored: the same accounting on an instance populated by LoadFromDisk: restored items are
+// deleted and replaced over a few epochs, every snapshot is closed, GC() runs at quiescence; then
+// exactly the live items may be physically present and MemoryInUse / node count / ItemsCount must be
+// what they account for (restored nodes are charged and released with the same item sizes).
+func c06Restored(c *rt.C, mem string) {
+	r := c.Rng
+	delta := r.Intn(2) == 0
+	kv := r.Intn(2) == 0
+	db := OpenDB(DBOpt{Mem: mem, KV: kv, Delta: delta})
+	nk := pick(r, 4, 20, 100)
+	h := BuildHistory(r, db, HistOpt{NKeys: nk, Epochs: 1 + r.Intn(3), OpsPerEpoch: nk + r.Intn(nk), KeepProb: 0, Writers: 2, DeleteBias: 25})
+	target := h.Snaps[len(h.Snaps)-1]
+	h.Snaps = nil
+	dir := filepath.Join(c.Tmp, "bk")
+	if err := db.N.StoreToDisk(dir, target.S, pick(r, 1, 4), nil); err != nil { // consumes the reference
+		c.Inconclusive("StoreToDisk failed: " + err.Error())
+		return
+	}
+	fresh := db.Fresh()
+	res, stuck, inc := loadWithProbe(fresh, dir, pick(r, 1, 2, 8))
+	if inc || stuck || res.pan != nil || res.err != nil {
+		c.Inconclusive(fmt.Sprintf("restore did not succeed (stuck=%v panic=%v err=%v): C05/C11's subject", stuck, res.pan, res.err))
+		return
+	}
+	h2 := &Hist{DB: fresh, Model: fresh.NewModel(), NKeys: nk, Versions: map[int]int{}}
+	for _, e := range target.Want {
+		h2.Model.live[e.Key] = e.Item
+	}
+	h2.valctr = 1 << 20
+	h2.Writers = append(h2.Writers, fresh.N.NewWriter(), fresh.N.NewWriter())
+	res.snap.Close()
+	witness := map[string]interface{}{"mem": mem, "kv": kv, "delta": delta, "keys": nk, "items_restored": len(target.Want)}
+	epochs := 2 + r.Intn(3)
+	for e := 0; e < epochs && !c.Failed(); e++ {
+		h2.Mutate(r, nk+r.Intn(nk), 60)
+		hs := h2.Snapshot()
+		hs.S.Close()
+		h2.Snaps = nil
+		fresh.N.GC()
+		if !Quiesce(fresh.N) {
+			c.Inconclusive("quiescence probe did not settle")
+			return
+		}
+		live := len(h2.Model.live)
+		w := WalkLive(fresh.N.VerifStore(), fresh.InsCmp(), nitro.ItemSize, 1<<22, nil)
+		c.Evals(1)
+		where := fmt.Sprintf("restored instance, epoch %d after the restore: every snapshot is closed and GC() ran at quiescence, %d keys are live", e+1, live)
+		if w.Level0Linked != live {
+			c.Violate("node-count", fmt.Sprintf("%s, but %d nodes are still physically present (stranded garbage or lost items)", where, w.Level0Linked), witness)
+		}
+		if m := fresh.N.MemoryInUse(); m != w.Bytes {
+			c.Violate("memory-in-use", fmt.Sprintf("%s: MemoryInUse()=%d, the %d linked nodes account for %d bytes", where, m, w.Level0Linked, w.Bytes), witness)
+		}
+		if n := fresh.N.ItemsCount(); n != int64(live) {
+			c.Violate("items-count", fmt.Sprintf("%s: ItemsCount()=%d", where, n), witness)
+		}
+		if ps := ReconcileStats(fresh, w); len(ps) > 0 {
+			c.Violate("statistics", fmt.Sprintf("%s: %v", where, ps), witness)
+		}
+	}
+	c.Sig("restored/delta=%v/mem=%s/n=%s/epochs=%d", delta, mem, sizeClass(len(target.Want)), epochs)
+	if !c.Failed() {
+		fresh.N.Close()
+		db.N.Close()
+	}
+	c.Sample(witness)
+}
+
 func runC06(c *rt.C) {
 	r := c.Rng
 	mem := memModes()[c.Index%3]
 	if c.Index < 6 {
 		c06Directed(c, []int{nitro.VpDelete2Found, nitro.VpDelNodeEntry, nitro.VpDelNodeBeforeCAS}[c.Index%3], []string{"go", "poison"}[c.Index/3])
+		return
+	}
+	if c.Index%12 == 11 {
+		c06Restored(c, mem)
 		return
 	}
 	if c.Index%3 == 1 || c.Index%4 == 0 {
@@ -137,7 +210,7 @@ func init() {
 	rt.Register(&rt.Prop{
 		ID: "C06", Level: "exploration",
 		Technique: "runtime monitoring: at deterministic quiescent checkpoints (explicit GC(), queues empty, every worker parked — decided from a goroutine profile, not from time) the collection frontier, physical node count, soft deletes and MemoryInUse are reconciled with a version-level reference model and a structure walk",
-		Rule: "cases 0-5: deterministic rendezvous schedules — the loser of a contended cross-epoch delete is parked after its lookup / on entry of DeleteNode / before the dead-stamp CAS while the winner deletes that key and four more; afterwards exactly the live keys may remain. ownership engine: 1-8 writers over 8-128 keys, snapshot after every phase, checkpoint after every phase; close orders random / newest-first / oldest-last / keep-all-then-seeded-permutation, closes partly from concurrent goroutines, GC() storms; expected: GetLastGCSn = (oldest open sn)-1, physically present versions = live ∪ {dead versions with deadSn > lastGCSn} (the documented in-order collector), MemoryInUse = bytes of exactly those nodes once nothing is open. " +
+		Rule: "cases 0-5: deterministic rendezvous schedules — the loser of a contended cross-epoch delete is parked after its lookup / on entry of DeleteNode / before the dead-stamp CAS while the winner deletes that key and four more; afterwards exactly the live keys may remain. ownership engine: 1-8 writers over 8-128 keys, snapshot after every phase, checkpoint after every phase; close orders random / newest-first / oldest-last / keep-all-then-seeded-permutation, closes partly from concurrent goroutines, GC() storms; expected: GetLastGCSn = (oldest open sn)-1, physically present versions = live ∪ {dead versions with deadSn > lastGCSn} (the documented in-order collector), MemoryInUse = bytes of exactly those nodes once nothing is open. Every 12th case runs the accounting on an instance populated by LoadFromDisk (restored items deleted and replaced over 2-4 epochs, snapshots closed, GC() at quiescence: nodes = live keys, MemoryInUse = their bytes, ItemsCount = live keys). " +
 			"contention engine: 2-16 writers deleting/re-inserting the same 1-8 keys, every snapshot closed after every phase: exactly the live keys may remain. evaluations = checkpoints reconciled; distinct = (close-order policy, number open, order class of the closes) / contention configurations",
 		Assumptions: []string{"'pinned by open snapshots' is evaluated with the documented in-order collection rule: a version with deadSn=e stays while any snapshot with sn<=e is open", "quiescence is decided by the probe (channels empty through a verif accessor + every collection/free worker parked), wall-clock only as an inconclusive watchdog"},
 		Cases: func(t string) int {
